@@ -484,3 +484,66 @@ Qed.
 Example split_uniform_negative_lost :
   split_uniform 3 0 0 (TNode [(VInt (-2), ex_leaf 10); (VInt 1, ex_leaf 11)]) = Some (TNode [(VInt 0, TNode [(VInt 1, ex_leaf 11)])]).
 Proof. vm_compute. reflexivity. Qed.
+
+(* ------------------------------------------------------------ splitEqual *)
+Definition se_parts (n : Z) (l : list (value * trie)) : list (value * trie) :=
+  map (fun ch => (match ch with (c, _) :: _ => c | [] => VNone end, TNode ch)) (chunks (S (length l)) (Z.to_nat n) l).
+
+Lemma split_equal_eq n l : 0 < n -> split_equal n (TNode l) = Some (TNode (se_parts n l)).
+Proof. intros Hn. unfold split_equal. destruct (Z.leb_spec n 0); [lia|reflexivity]. Qed.
+
+Lemma se_parts_lowers n l : lowers (se_parts n l) = chunks (S (length l)) (Z.to_nat n) l.
+Proof. unfold lowers, se_parts. rewrite map_map. cbn [snd tchildren]. apply map_id. Qed.
+
+(* (d) splitEqual(n) then mergeRanks is the identity; the chunks are consecutive, non-empty, of n elements
+   (but possibly the last) and each chunk's upper coordinate is its first coordinate *)
+Theorem split_equal_merge1 n l : 0 < n -> int_sorted l ->
+  exists t', split_equal n (TNode l) = Some t' /\ merge1 t' = Some (TNode l).
+Proof.
+  intros Hn Hl. exists (TNode (se_parts n l)). split; [apply split_equal_eq; exact Hn|].
+  assert (Hc : concat (lowers (se_parts n l)) = l).
+  { rewrite se_parts_lowers. apply chunks_concat; lia. }
+  rewrite merge1_concat; [rewrite Hc; reflexivity| |rewrite Hc; exact Hl].
+  unfold se_parts, all_nodes. rewrite Forall_forall. intros pt Hpt. apply in_map_iff in Hpt. destruct Hpt as [ch [<- _]]. eexists. reflexivity.
+Qed.
+
+Theorem split_equal_partition n l : 0 < n -> int_sorted l ->
+  exists parts, split_equal n (TNode l) = Some (TNode parts) /\
+    concat (lowers parts) = l /\
+    int_sorted parts /\
+    Forall (fun pt => exists c x ch, pt = (c, TNode ((c, x) :: ch)) /\ (length ((c, x) :: ch) <= Z.to_nat n)%nat) parts /\
+    (forall pre pt post, parts = pre ++ pt :: post -> post <> [] -> length (tchildren (snd pt)) = Z.to_nat n).
+Proof.
+  intros Hn Hl. exists (se_parts n l). split; [apply split_equal_eq; exact Hn|].
+  assert (Hn' : (0 < Z.to_nat n)%nat) by lia. assert (Hf : (length l < S (length l))%nat) by lia.
+  pose proof (chunks_concat (Z.to_nat n) Hn' _ l Hf) as Hc.
+  pose proof (chunks_sizes (Z.to_nat n) Hn' _ l Hf) as Hsz.
+  pose proof (chunks_full (Z.to_nat n) Hn' _ l Hf) as Hfull.
+  split; [rewrite se_parts_lowers; exact Hc|]. split; [|split].
+  - (* upper coordinates: heads of consecutive non-empty pieces of a sorted fiber *)
+    unfold se_parts. revert Hc Hsz Hl. generalize (chunks (S (length l)) (Z.to_nat n) l) as chs. clear.
+    intros chs. revert l. induction chs as [|ch chs IH]; intros l Hc Hsz Hl; cbn [map]; [apply int_sorted_nil|].
+    cbn [concat] in Hc. subst l. inversion Hsz as [|? ? [Hne _] Hsz']; subst.
+    apply int_sorted_app in Hl. destruct Hl as [Hch [Hrest Hlt]].
+    specialize (IH _ eq_refl Hsz' Hrest). destruct ch as [|[c x] ch]; [congruence|].
+    apply int_sorted_cons_inv in Hch. destruct Hch as [Hk [_ Hgt]]. destruct IH as [IH1 IH2]. split.
+    + constructor; [|exact IH1]. destruct Hk as [z Hz]. exists z. exact Hz.
+    + constructor; [exact IH2|]. rewrite Forall_forall. intros pt Hpt. apply in_map_iff in Hpt.
+      destruct Hpt as [ch' [<- Hch']]. rewrite Forall_forall in Hsz'. destruct (Hsz' _ Hch') as [Hne' _].
+      destruct ch' as [|[c' x'] ch']; [congruence|]. unfold kz at 1 2. cbn [fst].
+      specialize (Hlt (c, x) (c', x')). unfold kz in Hlt at 1 2. cbn [fst] in Hlt. apply Hlt; [left; reflexivity|].
+      apply in_concat. exists ((c', x') :: ch'). split; [exact Hch'|left; reflexivity].
+  - unfold se_parts. rewrite Forall_forall. intros pt Hpt. apply in_map_iff in Hpt. destruct Hpt as [ch [<- Hch]].
+    rewrite Forall_forall in Hsz. destruct (Hsz _ Hch) as [Hne Hle]. destruct ch as [|[c x] ch]; [congruence|].
+    exists c, x, ch. split; [reflexivity|exact Hle].
+  - intros pre pt post E Hpost. unfold se_parts in E. apply map_eq_app in E. destruct E as [l1 [l2 [E [E1 E2]]]].
+    apply map_eq_cons in E2. destruct E2 as [ch [l3 [E2 [E3 E4]]]]. subst l2 pt. cbn [snd tchildren].
+    apply (Hfull l1 ch l3 E). intros ->. apply Hpost. subst post. reflexivity.
+Qed.
+
+Example split_equal_merge1_ex :
+  split_equal 4 (TNode ex_fiber) =
+    Some (TNode [(VInt 0, TNode [(VInt 0, ex_leaf 10); (VInt 1, ex_leaf 11); (VInt 3, ex_leaf 13); (VInt 4, ex_leaf 14)]);
+                 (VInt 7, TNode [(VInt 7, ex_leaf 17); (VInt 12, ex_leaf 22)])]) /\
+  exists t', split_equal 4 (TNode ex_fiber) = Some t' /\ merge1 t' = Some (TNode ex_fiber).
+Proof. split; [vm_compute; reflexivity|]. apply split_equal_merge1; [lia|exact ex_fiber_sorted]. Qed.
